@@ -15,6 +15,8 @@ package oidc
 //@ interface SessionStore method GetTokenResponse(self, ctx, sessionID) (t, err)
 //@   modifies ghost View
 //@   ensures  frame: OnlySid(old(View), View, self.pay, sessionID)
+//@   ensures  frame_pw: OnlySidPW(old(View), View, self.pay, sessionID)
+//@   derived  frame by L-onlysid-ext
 //@   ensures  err_nil: err != nil ==> t == nil
 //@   ensures  got: t != nil ==> old(View)[self.pay][sessionID].present && old(View)[self.pay][sessionID].hasTok && TokOf(t) == old(View)[self.pay][sessionID].tok
 //@   ensures  got_kept: t != nil ==> Touched(old(View)[self.pay][sessionID], View[self.pay][sessionID])
@@ -23,6 +25,8 @@ package oidc
 //@ interface SessionStore method GetAuthorizationState(self, ctx, sessionID) (a, err)
 //@   modifies ghost View
 //@   ensures  frame: OnlySid(old(View), View, self.pay, sessionID)
+//@   ensures  frame_pw: OnlySidPW(old(View), View, self.pay, sessionID)
+//@   derived  frame by L-onlysid-ext
 //@   ensures  err_nil: err != nil ==> a == nil
 //@   ensures  got: a != nil ==> old(View)[self.pay][sessionID].present && old(View)[self.pay][sessionID].hasAuth && AuthOf(a) == old(View)[self.pay][sessionID].auth
 //@   ensures  got_kept: a != nil ==> Touched(old(View)[self.pay][sessionID], View[self.pay][sessionID])
@@ -32,6 +36,8 @@ package oidc
 //@   requires tok_nonnil: tokenResponse != nil
 //@   modifies ghost View
 //@   ensures  frame: OnlySid(old(View), View, self.pay, sessionID)
+//@   ensures  frame_pw: OnlySidPW(old(View), View, self.pay, sessionID)
+//@   derived  frame by L-onlysid-ext
 //@   ensures  ok: err == nil ==> SetTokPost(old(View)[self.pay][sessionID], View[self.pay][sessionID], TokOf(tokenResponse))
 //@   ensures  fail: err != nil ==> View[self.pay][sessionID] == old(View)[self.pay][sessionID] || !View[self.pay][sessionID].present || SetTokPost(old(View)[self.pay][sessionID], View[self.pay][sessionID], TokOf(tokenResponse))
 
@@ -39,12 +45,16 @@ package oidc
 //@   requires auth_nonnil: authorizationState != nil
 //@   modifies ghost View
 //@   ensures  frame: OnlySid(old(View), View, self.pay, sessionID)
+//@   ensures  frame_pw: OnlySidPW(old(View), View, self.pay, sessionID)
+//@   derived  frame by L-onlysid-ext
 //@   ensures  ok: err == nil ==> SetAuthPost(old(View)[self.pay][sessionID], View[self.pay][sessionID], AuthOf(authorizationState))
 //@   ensures  fail: err != nil ==> View[self.pay][sessionID] == old(View)[self.pay][sessionID] || !View[self.pay][sessionID].present || SetAuthPost(old(View)[self.pay][sessionID], View[self.pay][sessionID], AuthOf(authorizationState))
 
 //@ interface SessionStore method ClearAuthorizationState(self, ctx, sessionID) err
 //@   modifies ghost View
 //@   ensures  frame: OnlySid(old(View), View, self.pay, sessionID)
+//@   ensures  frame_pw: OnlySidPW(old(View), View, self.pay, sessionID)
+//@   derived  frame by L-onlysid-ext
 //@   ensures  absent: !old(View)[self.pay][sessionID].present ==> !View[self.pay][sessionID].present
 //@   ensures  ok: err == nil && old(View)[self.pay][sessionID].present ==> ClearPost(old(View)[self.pay][sessionID], View[self.pay][sessionID])
 //@   ensures  fail: err != nil ==> View[self.pay][sessionID] == old(View)[self.pay][sessionID] || !View[self.pay][sessionID].present || ClearPost(old(View)[self.pay][sessionID], View[self.pay][sessionID])
@@ -52,6 +62,8 @@ package oidc
 //@ interface SessionStore method RemoveSession(self, ctx, sessionID) err
 //@   modifies ghost View
 //@   ensures  frame: OnlySid(old(View), View, self.pay, sessionID)
+//@   ensures  frame_pw: OnlySidPW(old(View), View, self.pay, sessionID)
+//@   derived  frame by L-onlysid-ext
 //@   ensures  ok: err == nil ==> !View[self.pay][sessionID].present
 //@   ensures  fail: err != nil ==> View[self.pay][sessionID] == old(View)[self.pay][sessionID] || !View[self.pay][sessionID].present
 
@@ -92,3 +104,15 @@ package oidc
 //@   ensures  parses: (err == nil) == JwtParses(t.IDToken)
 //@   ensures  tok: err == nil ==> result != nil && JwtOf(result) == t.IDToken
 //@   ensures  nil_on_err: err != nil ==> result == nil
+
+// ---------------------------------------------------------------------------------------------
+// memoryStore implements SessionStore (C12): every method is verified against the interface
+// method's contract with View[store][sid] read off the store's map and session objects.
+// ---------------------------------------------------------------------------------------------
+
+//@ impl (*memoryStore) SessionStore (m, sid)
+//@   requires wf: m != nil && m.log != nil && m.clock != nil && m.sessions != nil && !held(addr(m.mu))
+//@   invariant distinct: forall a string, b string :: a != b && mapHas(m.sessions, a) && mapHas(m.sessions, b) && m.sessions[a] != nil ==> m.sessions[a] != m.sessions[b]
+//@   invariant allocated: forall a string :: mapHas(m.sessions, a) ==> m.sessions[a] <= watermark()
+//@   view View: MemView(m, sid)
+//@   private mapof(m.sessions), heap session.tokenResponse, heap session.authorizationState, heap session.added, heap session.accessed, ghost $held[addr(m.mu)], ghost Clk
